@@ -212,7 +212,6 @@ Record callobs := mkco {
 
 Record hstate := mkh { h_w : world; h_loc : tid -> tlocal; h_stop : bool }.
 
-Definition nopw : lock -> bool := fun _ => false.
 
 Definition snapshot_holds (n : nat) (w : world) : list rawst := map (w_raw w) (seq 0 n).
 Definition snapshot_psn (n : nat) (w : world) : list bool := map (w_psn w) (seq 0 n).
